@@ -1,6 +1,6 @@
 """C04 Hop-by-hop and proxy credential headers are not relayed (DESIGN.md section 5, C04)."""
 from .. import expr as E
-from ..flow import ev_call, ev_exit, ev_any
+from ..flow import ev_call, ev_exit, ev_any, ev_assign
 
 HOP_REQ = ["CONNECTION", "TE", "KEEP_ALIVE", "PROXY_AUTHENTICATE", "TRAILER", "TRANSFER_ENCODING", "UPGRADE", "PROXY_CONNECTION"]
 HOP_TABLE = {"Connection", "Keep-Alive", "Proxy-Authorization", "Proxy-Connection", "TE", "Trailer", "Transfer-Encoding", "Upgrade"}
@@ -135,6 +135,24 @@ def run(ck):
     ck.require_any_fact("R3.reply-proxy-authenticate", fl, ev_exit(),
                         [("P", "delPA"), ("T", "peer_login", True), ("T", "satisfaction", True)], "return",
                         why="(Proxy-Authenticate from upstream would be relayed)")
+
+    ck.rule("R3c 1xx control messages never pass through buildReplyHeader(): Http::One::Server::writeControlMsgAndCall is their own enforcement site -- the message is "
+            "written (Comm::Write) only after rep->header.removeHopByHopEntries() on every path, whatever the status code (a 101 keeps only the Upgrade it re-adds)")
+    h1 = ck.facts(["src/servers/Http1Server.cc"], whole=False)
+    wcm = h1.fn("Http::One::Server::writeControlMsgAndCall")
+    ck.require_passed("R3c.control-msg-hop-by-hop", ck.flow(wcm, markers={"hbh": ev_call("HttpHeader::removeHopByHopEntries")}), ev_call("Comm::Write"), "hbh", "Comm::Write(control message)",
+                      why="(the origin's Connection-listed and hop-by-hop fields of a 1xx would reach the client)")
+    ck.rule("R3d the PASS/PASSTHRU exception of R3 trusts HttpRequest::peer_login, which only prepForPeering()/prepForDirect() set: FwdState::dispatch() runs once per "
+            "attempt, so every protocol start in it (httpStart, Ftp::StartRelay/StartGateway, whoisStart) is reached only after one of the two on that path. A direct "
+            "attempt that follows a failed attempt through a login=PASS peer would otherwise keep the peer's setting and relay the origin's Proxy-Authenticate")
+    fw = ck.facts(["src/FwdState.cc"], whole=False)
+    dsp = fw.fn("FwdState::dispatch")
+    starts = ev_call({"httpStart", "Ftp::StartRelay", "Ftp::StartGateway", "whoisStart"})
+    prep = lambda ev: ev.get("e") == "call" and E.strip(ev["x"]).get("f") in ("HttpRequest::prepForPeering", "HttpRequest::prepForDirect")
+    ck.require_passed("R3d.peer-login-per-attempt", ck.flow(dsp, markers={"prepared": prep}), starts, "prepared", "protocol start in dispatch()", min_sites=3,
+                      why="(peer_login of an earlier attempt would still be in force)")
+    pfd = ck.facts(["src/HttpRequest.cc"], whole=False).fn("HttpRequest::prepForDirect")
+    ck.sites(ck.flow(pfd), ev_assign("HttpRequest::peer_login"), "peer_login = ... in prepForDirect", 1)
 
     ck.rule("R3b HttpHeader::removeHopByHopEntries: removeConnectionHeaderEntries() first; RESPONSE(lookup(id).hopbyhop true -> delAt); "
             "removeConnectionHeaderEntries: RESPONSE(strListIsMember(...) true -> delAt)")
